@@ -1,0 +1,9 @@
+//go:build !verif
+
+package database
+
+import "context"
+
+// VerifPoint is a no-op unless the module is built with the `verif` tag
+// (verification harness: fault and crash injection at transaction boundaries).
+func VerifPoint(ctx context.Context, name string, index int) error { return nil }
